@@ -382,6 +382,10 @@ func freshArg(a ssa.Value, at ssa.Instruction) bool {
 		if b, ok := x.Call.Value.(*ssa.Builtin); ok && b.Name() == "new" {
 			return true
 		}
+		// the result of a constructor-like helper that hands out an allocation of its own
+		if returnsFresh(x.Call.StaticCallee()) {
+			return true
+		}
 	}
 	// load of a just-stored fresh pointer
 	if u, ok := a.(*ssa.UnOp); ok && at != nil {
